@@ -2,5 +2,4 @@ SPECIFICATION Spec
 CONSTANTS MaxLen = 1
   Buggy = TRUE
   Wide = FALSE
-  Replay = FALSE
 INVARIANTS Isolation
